@@ -111,7 +111,7 @@ def judge_consumer(sname, fe, tok, run):
 
 # -- producer ---------------------------------------------------------------------------------------------
 KINDS = ['plain', 'params', 'params-empty', 'signed-digest', 'signed-digest-noparam', 'signed-hmac', 'siginfo-only']
-DIGESTS = ['ok', 'flip', 'flip-param', 'absent']
+DIGESTS = ['ok', 'flip', 'flip-param', 'absent', 'long']
 
 
 def make_incoming(kind, digest):
@@ -128,6 +128,12 @@ def make_incoming(kind, digest):
         w = enc.make_interest('/p/x', ip, None, DigestSha256Signer(for_interest=True))
     elif kind == 'signed-hmac':
         w = enc.make_interest('/p/x', ip, b'abc', HmacSha256Signer('/k', b'key'))
+    elif kind == 'signed-no-appparam':
+        # a signed Interest from which the ApplicationParameters element was cut out (lengths adjusted): the digest component in the
+        # name cannot be right for what is left
+        w0 = bytes(enc.make_interest('/p/x', ip, b'abc', DigestSha256Signer(for_interest=True)))
+        top = ts.read_single(w0)
+        return ts.tlv(5, b''.join(c.wire for c in top.children() if c.typ != 0x24))
     elif kind == 'siginfo-only':
         # InterestSignatureInfo present, InterestSignatureValue missing; the parameters digest is correct for what is there
         w0 = bytes(enc.make_interest('/p/x', ip, b'abc', DigestSha256Signer(for_interest=True)))
@@ -159,6 +165,10 @@ def make_incoming(kind, digest):
             return ts.tlv(5, bytes(w[name_el.start:name_el.end]) + rest)
         w[app.vstart] ^= 0x01
         return bytes(w)
+    if digest == 'long':
+        # the right digest followed by one more octet: not a digest component any more
+        newname = ts.tlv(7, b''.join(c.wire if c.typ != 2 else ts.tlv(2, bytes(w[c.vstart:c.end]) + b'\x00') for c in comps))
+        return ts.tlv(5, newname + bytes(w[name_el.end:top.end]))
     if digest == 'absent':
         newname = ts.tlv(7, b''.join(c.wire for c in comps if c.typ != 2))
         return ts.tlv(5, newname + bytes(w[name_el.end:top.end]))
@@ -191,6 +201,15 @@ def producer_cases():
         for kind in ('params', 'signed-digest'):
             for mid in ('more-specific', 'more-specific-novalidator', 'replaced'):
                 yield {'fe': fe, 'kind': kind, 'digest': 'ok', 'validator': acc_tok, 'vlat': 5, 'mid': mid}
+    for fe, toks in (('v2', ['PASS', 'FAIL', 'none']), ('legacy', ['True', 'False', 'none'])):
+        for val in toks:
+            yield {'fe': fe, 'kind': 'signed-no-appparam', 'digest': 'stale', 'validator': val, 'vlat': 0}
+    # a validator that does not answer but raises (its own time limit expired, it was cancelled): that is no acceptance
+    for fe in ('v2', 'legacy'):
+        for kind in ('params', 'signed-digest', 'signed-hmac'):
+            for vlat in (0, 5):
+                for exc in ('raise:TimeoutError', 'raise:CancelledError', 'raise:ValueError'):
+                    yield {'fe': fe, 'kind': kind, 'digest': 'ok', 'validator': exc, 'vlat': vlat}
     yield {'fe': 'legacy', 'kind': 'signed-digest', 'digest': 'ok', 'validator': 'none', 'vlat': 0, 'break_sig': True}
     yield {'fe': 'v2', 'kind': 'signed-digest', 'digest': 'ok', 'validator': 'PASS', 'vlat': 0, 'break_sig': True}
 
@@ -221,7 +240,16 @@ def run_producer(case):
             wire = ts.tlv(5, ts.tlv(7, b''.join(comps)) + bytes(w[name_el.end:top.end]))
         tok = case['validator']
         validator = None
-        if tok != 'none':
+        if tok.startswith('raise:'):
+            exc_cls = {'TimeoutError': TimeoutError, 'CancelledError': asyncio.CancelledError, 'ValueError': ValueError}[tok[6:]]
+
+            async def raising(*a):
+                log.append(('vstart', loop.us))
+                if case['vlat']:
+                    await asyncio.sleep(case['vlat'] / 1000)
+                raise exc_cls('the validator gives up')
+            validator = (lambda name, sig, ctx: raising()) if fe == 'v2' else (lambda name, sig: raising())
+        elif tok != 'none':
             value = c03.verdict_value(tok, fe)
             if fe == 'v2':
                 async def validator(name, sig, ctx):
@@ -316,6 +344,8 @@ def run_producer(case):
         exp_called = True
     elif not digest_ok:
         exp_called = False
+    elif tok.startswith('raise:'):
+        exp_called = fe == 'legacy' and not signed        # (the legacy front-end does not consult a validator for unsigned Interests)
     elif fe == 'v2':
         exp_called = tok != 'none' and c03.verdict_accepts(tok, 'v2')
     else:
@@ -334,7 +364,7 @@ def run_producer(case):
         viol.append((f'C05|producer|{fe}|handler-called-twice', f'{tag}: handler called {called} times'))
     elif bool(called) != exp_called and not (soft and not called):
         why = 'reached the handler' if called else 'was dropped'
-        viol.append((f"C05|producer|{fe}|{case['kind']}|digest={case['digest']}|validator={'none' if tok == 'none' else ('accepting' if c03.verdict_accepts(tok, fe) else 'rejecting')}|{'delivered' if called else 'dropped'}",
+        viol.append((f"C05|producer|{fe}|{case['kind']}|digest={case['digest']}|validator={'none' if tok == 'none' else ('raising' if tok.startswith('raise:') else ('accepting' if c03.verdict_accepts(tok, fe) else 'rejecting'))}|{'delivered' if called else 'dropped'}",
                      f'{tag}: Interest {why}; expected handler called = {exp_called}'))
     if case.get('mid'):
         # the handler table changed during validation: only the clause about the unvalidated handler is claimed
@@ -353,6 +383,8 @@ def run_producer(case):
     if called and not plain and (fe == 'v2' or signed) and tok != 'none' and not consulted:
         viol.append((f'C05|producer|{fe}|validator-skipped', f'{tag}: handler called but validator never consulted'))
     for f in failures:
+        if tok.startswith('raise:') and f['exception'] == tok[6:]:
+            continue        # the validator's own exception ending the task that ran it is the application's business
         viol.append((f"C05|producer|{fe}|task-error|{f['exception']}@{f['where']}", f'{tag}: {f}'))
     return viol, (called, consulted)
 
